@@ -203,8 +203,9 @@ theorem readLease2C_no_panic (w : Bytes) : ∃ r, readLease2C w = .ok r := ⟨_,
 
 /-! ### LeaseSet2: the parse helpers
 
-The options mapping (`parseOptionsMapping`, `common.ReadMapping`) is not mirrored; `ls2Head`, `ls2Tail` are
-the corresponding lines of the pure `readLeaseSet2` (`readLeaseSet2_pieces`). -/
+This section covers the helpers around the options mapping; `ls2Head`, `ls2Tail` are the corresponding lines of
+the pure `readLeaseSet2` (`readLeaseSet2_pieces`).  The options mapping (`parseOptionsMapping`,
+`common.ReadMapping`) and the end-to-end theorem `readLeaseSet2C_refines` are in `Props/C04b.lean`. -/
 
 /-- `ls2Head`/`ls2Tail` are literally the head and the tail of the pure model -/
 theorem readLeaseSet2_pieces (d : Bytes) : readLeaseSet2 d =
